@@ -1837,6 +1837,17 @@ class PyCdlib:
         if self._rr_moved_rr_name is None:
             self._rr_moved_rr_name = b'rr_moved'
 
+        # A directory of that name may be there already (made by the user, or
+        # left without a relocated entry in it); then that is the one to use.
+        for child in self.pvd.root_directory_record().children:
+            if child.file_identifier() == self._rr_moved_name and child.is_dir():
+                self._rr_moved_record = child
+                return 0
+
+        if any(child.rock_ridge is not None and child.rock_ridge.name() == self._rr_moved_rr_name
+               for child in self.pvd.root_directory_record().rr_children):
+            raise pycdlibexception.PyCdlibInvalidInput('The Rock Ridge name of the directory for relocated entries is already used in the root directory')
+
         # No rr_moved found, so we have to create it.
         rec = dr.DirectoryRecord()
         rec.new_dir(self.pvd, self._rr_moved_name,
